@@ -37,7 +37,8 @@ def run(ck):
         g = VGrid(nservers=p["nservers"], seed=crng.getrandbits(32), profile=profile, eager_timers=eager,
                   keep_log=False)
         try:
-            one_case(ck, g, p, crng, profile, schedules)
+            with ck.watchdog(180, "case %d %r" % (i, p)):
+                one_case(ck, g, p, crng, profile, schedules)
         finally:
             g.close()
         if ck.tier == "quick" and ck.evaluations >= 1200:
